@@ -363,8 +363,42 @@ fn match_arms_of(f: &syn::ImplItemFn) -> Vec<(String, String)> {
     v.0
 }
 
+fn render_result(v: &Val) -> R<Term> {
+    match v {
+        Val::Variant(p, a) if p.last().map(|s| s == "Ok").unwrap_or(false) => match a.first() {
+            Some(Val::Loc(LocT::Const(c))) => Ok(Term::Str(format!("ok:{}", c))),
+            other => Err(format!("Ok({:?})", other.map(short))),
+        },
+        Val::Variant(p, _) if p.last().map(|s| s == "Err").unwrap_or(false) => Ok(Term::Str("err".into())),
+        Val::Ite(c, a, b) => Ok(Term::Ite(c.clone(), Box::new(render_result(a)?), Box::new(render_result(b)?))),
+        Val::Str(Term::Unreach(w)) => Ok(Term::Unreach(w.clone())),
+        other => Err(format!("from_str returned {}", short(other))),
+    }
+}
+
 fn extract_locale_enum(idx: &Index, enum_path: &AbsPath) -> J {
     let mut m = serde_json::Map::new();
+    // symbolic evaluation of the identity methods
+    {
+        let mut ev = Ev::new(idx);
+        let r = idx.find_method(enum_path, "as_str", None).first().copied().ok_or("no as_str".to_string())
+            .and_then(|(info, f)| ev.call_fn(info, f, Some(Val::Loc(LocT::Sym)), vec![]))
+            .and_then(|v| ev.render(&v));
+        m.insert("as_str_term".into(), term_or_err(r));
+        let mut ev = Ev::new(idx);
+        let r = idx.find_method(enum_path, "from_str", Some("FromStr")).first().copied().ok_or("no from_str".to_string())
+            .and_then(|(info, f)| ev.call_fn(info, f, None, vec![Val::Str(Term::Var("s".into()))]))
+            .and_then(|v| render_result(&v));
+        m.insert("from_str_term".into(), term_or_err(r));
+        let mut ev = Ev::new(idx);
+        let r = idx.find_method(enum_path, "get_all", None).first().copied().ok_or("no get_all".to_string())
+            .and_then(|(info, f)| ev.call_fn(info, f, None, vec![]));
+        m.insert("get_all_list".into(), match r {
+            Ok(Val::Array(items)) => json!(items.iter().map(|v| match v { Val::Loc(LocT::Const(c)) => json!(c), o => json!({"err": short(o)}) }).collect::<Vec<_>>()),
+            Ok(o) => json!({"err": short(&o)}),
+            Err(e) => json!({"err": e}),
+        });
+    }
     for name in ["as_str", "from_str", "direction", "as_icu_locale"] {
         if let Some((_, f)) = idx.find_method(enum_path, name, None).first() {
             m.insert(name.to_string(), json!(match_arms_of(f)));
